@@ -128,9 +128,14 @@ def run_trtb(case):
     out = lab.tap("out")
     tb.out = out
     entry = lab.tap("in", tb)
-    lab.inject(entry, case["wl"])
-    lab.run()
+    pkts = lab.inject(entry, case["wl"])
     classes = set()
+    if len(pkts) % 2 == 1:
+        # packets that were marked by a meter upstream: the colour given here depends on this meter's buckets alone
+        for i, p in enumerate(pkts):
+            p.color = [None, "yellow", None, "red", "green", "red", None][(i + len(pkts)) % 7]
+        classes.add("packets arrive already coloured")
+    lab.run()
     if pir:
         taus, waits = conformance(pir, pbs, None, entry.recs, out.recs, exact, classes, "C11.two_rate")
     else:
@@ -268,7 +273,7 @@ PROP = Property(
                          "peak spacing binding"]),
         Facet("two_rate", trtb_strategy, run_trtb, quick=1000, thorough=6000,
               essential=["colour green", "colour yellow", "colour red", "with PIR", "without PIR",
-                         "committed level exactly known throughout"]),
+                         "committed level exactly known throughout", "packets arrive already coloured"]),
     ],
     assumptions=["what a yellow packet does to the committed bucket is not specified (the code empties it, RFC 2698 leaves it): "
                  "tracked as an interval; a red packet consumes no committed tokens"],
